@@ -169,6 +169,138 @@ def bisect1D (counts : List Nat) (E : Nat → Rat → Rat) (cfg : Cfg) : Outcome
       | (_, s, some e) => (.pyError e, s.trace)
       | (i, s, none) => finish counts E cfg i s
 
+/-! ### Bisection2D and BisectionZD (nested candidate lists)
+
+  `nc : List (List Nat)` holds the borehole counts of every field of every inner list;
+  `E2 l i h` is the excess of field `i` of list `l` at height `h`.  The outer domain is
+  `[nested[0][0]] ++ [cdn[-1] for cdn in nested]`.
+-/
+
+/-- Borehole counts of the outer domain; `none` where Python raises IndexError (an empty list). -/
+def outerCounts (nc : List (List Nat)) : Option (List Nat) := do
+  let first ← nc.head?
+  let f0 ← first.head?
+  let lasts ← nc.mapM (fun l => l.getLast?)
+  pure (f0 :: lasts)
+
+/-- Position in the nested lists of outer candidate `j`. -/
+def outerPos (nc : List (List Nat)) (j : Nat) : Nat × Nat :=
+  if j = 0 then (0, 0) else (j - 1, (nc.getD (j - 1) []).length - 1)
+
+def outerE (nc : List (List Nat)) (E2 : Nat → Nat → Rat → Rat) : Nat → Rat → Rat :=
+  fun j h => E2 (outerPos nc j).1 (outerPos nc j).2 h
+
+/-- The real code raises IndexError at the first evaluation whose `fieldDescriptors[idx]` does not
+    exist; everything before is identical.  `descLen` is the length of the descriptor list in
+    force during the search. -/
+def truncDesc (descLen : Nat) (r : Outcome × List (Nat × Rat)) : Outcome × List (Nat × Rat) :=
+  match r.2.findIdx? (fun t => decide (descLen ≤ t.1)) with
+  | none => r
+  | some n => (.pyError .indexError, r.2.take n)
+
+/-- Python `nested[key - 1]` (negative index wraps to the last list). -/
+def pyPrev (n key : Nat) : Option Nat :=
+  if n = 0 then none else if key = 0 then some (n - 1) else if key - 1 < n then some (key - 1) else none
+
+/-- Trace entries are tagged with the list they belong to (`none` = outer domain). -/
+abbrev Trace2 := List (Option Nat × Nat × Rat)
+
+def tag (l : Option Nat) (tr : List (Nat × Rat)) : Trace2 := tr.map (fun t => (l, t.1, t.2))
+
+/-- Outcome of a nested search: the selected (list, field, height at which the GHE was left). -/
+inductive Outcome2 where
+  | selected (l : Nat) (idx : Nat) (h : Rat)
+  | valueError
+  | pyError (e : PyErr)
+  deriving Repr, DecidableEq, Inhabited
+
+/-- `Bisection2D.__init__`: outer search (with the descriptors of inner list 0!), then the search
+    of `nested[selection_key - 1]`. -/
+def bisect2D (nc : List (List Nat)) (E2 : Nat → Nat → Rat → Rat) (cfg : Cfg) : Outcome2 × Trace2 :=
+  match outerCounts nc with
+  | none => (.pyError .indexError, [])
+  | some oc =>
+    let r := truncDesc (nc.getD 0 []).length (bisect1D oc (outerE nc E2) cfg)
+    match r.1 with
+    | .valueError => (.valueError, tag none r.2)
+    | .pyError e => (.pyError e, tag none r.2)
+    | .selected key _ _ =>
+      match pyPrev nc.length key with
+      | none => (.pyError .indexError, tag none r.2)
+      | some l =>
+        let inner := nc.getD l []
+        let r2 := bisect1D inner (E2 l) cfg
+        let tr := tag none r.2 ++ tag (some l) r2.2
+        match r2.1 with
+        | .valueError => (.valueError, tr)
+        | .pyError e => (.pyError e, tr)
+        | .selected k h _ => (.selected l k h, tr)
+
+/-- One pass of the `while` loop of `search_successive`. State: list index `i`, `old_height`,
+    the per-list results so far (list, selected idx, memory, total drilling), trace. -/
+structure ZSt where
+  i : Nat
+  old : Rat
+  done : List (Nat × Dict × Rat)      -- (list, calculated_temperatures, total drilling), insertion order
+  trace : Trace2
+  deriving Repr
+
+/-- `calculated_temperatures` of a finished 1D search, rebuilt from its trace: every max-height
+    evaluation, in first-evaluation order (the dict keeps the position of the first insertion). -/
+def memOfTrace (E : Nat → Rat → Rat) (cfg : Cfg) (p : Path) (tr : List (Nat × Rat)) : Dict :=
+  let his := (tr.drop 1).filter (fun t => decide (t.2 = cfg.maxH) || true)   -- entries after (0,minH)
+  (his.foldl (fun d t => dictSet d t.1 (E t.1 cfg.maxH)) [])
+
+def zdLoop (nc : List (List Nat)) (E2 : Nat → Nat → Rat → Rat) (sz : Nat → Nat → Rat) (cfg : Cfg)
+    (maxI : Nat) : Nat → ZSt → ZSt × Option PyErr
+  | 0, st => (st, none)
+  | fuel + 1, st =>
+    if ¬ (st.i < nc.length ∧ st.i < maxI) then (st, none) else
+    let inner := nc.getD st.i []
+    let r := bisect1D inner (E2 st.i) cfg
+    let tr := st.trace ++ tag (some st.i) r.2
+    match r.1 with
+    | .valueError => ({ st with trace := tr }, none)              -- `except ValueError: break`
+    | .pyError e => ({ st with trace := tr }, some e)
+    | .selected k _ p =>
+      let mem := memOfTrace (E2 st.i) cfg p r.2
+      let total : Rat := (inner.getD k 0 : Nat) * sz st.i k
+      let st' : ZSt := { i := st.i, old := st.old, done := st.done ++ [(st.i, mem, total)], trace := tr }
+      if st.old < total then (st', none)
+      else zdLoop nc E2 sz cfg maxI fuel { st' with i := st.i + 1, old := total }
+
+/-- `min(values)` then `values.index(min)`: first entry with the smallest total drilling. -/
+def argMinTotal : List (Nat × Dict × Rat) → Option (Nat × Dict × Rat)
+  | [] => none
+  | x :: rest => some (rest.foldl (fun m y => if y.2.2 < m.2.2 then y else m) x)
+
+/-- `BisectionZD.__init__` + `search_successive`. -/
+def bisectZD (nc : List (List Nat)) (E2 : Nat → Nat → Rat → Rat) (sz : Nat → Nat → Rat) (cfg : Cfg) :
+    Outcome2 × Trace2 :=
+  match outerCounts nc with
+  | none => (.pyError .indexError, [])
+  | some oc =>
+    let r := bisect1D oc (outerE nc E2) cfg
+    match r.1 with
+    | .valueError => (.valueError, tag none r.2)
+    | .pyError e => (.pyError e, tag none r.2)
+    | .selected key _ _ =>
+      let start := if key > 0 then key - 1 else key
+      let (st, err) := zdLoop nc E2 sz cfg (start + 7) (nc.length + 1)
+        { i := start, old := 99999, done := [], trace := tag none r.2 }
+      match err with
+      | some e => (.pyError e, st.trace)
+      | none =>
+        match argMinTotal st.done with
+        | none => (.valueError, st.trace)                          -- min([]) raises ValueError
+        | some (l, mem, _) =>
+          match maxOf ((mem.map (·.2)).filter (fun v => decide (v ≤ 0))) with
+          | none => (.valueError, st.trace)                        -- max([]) raises ValueError
+          | some eoi =>
+            match keyOfValue mem eoi with
+            | none => (.valueError, st.trace)
+            | some k => (.selected l k (sz l k), st.trace)
+
 /-! ### utilities.solve_root and GHE.size -/
 
 /-- Result of `solve_root`: which branch, and the returned abscissa. -/
